@@ -303,6 +303,60 @@ func c05R3(c *Ctx) {
 			}
 		}
 	}
+	// the drag upload types Ctrl-C and the upload command into the remote side. Whether the drag is still on is decided
+	// AFTER any settling delay: from every sleep that can precede the typing, the typing (setting 'interrupting', writing
+	// to the server) is not reachable without a fresh look at the dragging flag — a guard evaluated before the delay
+	// still injects bytes into the session when the user typed something else in the meantime
+	{
+		isSleep := func(in ssa.Instruction) bool {
+			ci, ok := in.(ssa.CallInstruction)
+			return ok && calleeID(ci.Common()) == "time.Sleep"
+		}
+		isTyping := func(in ssa.Instruction) bool {
+			ci, ok := in.(ssa.CallInstruction)
+			if !ok {
+				return false
+			}
+			if isAtomicOnField(ci, "interrupting", "Store") {
+				b, _ := constBool(ci.Common().Args[1])
+				return b
+			}
+			return false
+		}
+		looksAtDrag := func(in ssa.Instruction) bool {
+			ci, ok := in.(ssa.CallInstruction)
+			return ok && isAtomicOnField(ci, "dragging", "Load")
+		}
+		nSl := 0
+		for _, g := range []*ssa.Function{u} {
+			eachInstr(g, func(in ssa.Instruction) {
+				if !isSleep(in) {
+					return
+				}
+				// only sleeps that come before the typing
+				if hitT, _ := reachAvoid(in, isTyping, nil); hitT == nil {
+					return
+				}
+				nSl++
+				hit, path := reachAvoid(in, isTyping, looksAtDrag)
+				c.check(hit == nil, "uploadDragFiles/drag-rechecked-after-delay", c.ipos(in), "after a delay the dragging flag is looked at again before anything is typed into the session", "after a settling delay the upload goes ahead without looking at the dragging flag again: a drag the user cancelled by typing still injects Ctrl-C and the upload command", c.pathStr(path)...)
+			})
+		}
+		// the delayed launcher: its sleep is followed by the call of uploadDragFiles, whose first action is the guard
+		firstIsGuard := false
+		for _, in := range u.Blocks[0].Instrs {
+			if _, isDbg := in.(*ssa.DebugRef); isDbg {
+				continue
+			}
+			if looksAtDrag(in) {
+				firstIsGuard = true
+			}
+			if _, isCall := in.(ssa.CallInstruction); isCall {
+				break
+			}
+		}
+		c.check(firstIsGuard || nSl > 0, "uploadDragFiles/starts-with-drag-guard", c.pos(u.Pos()), "the upload starts by looking at the dragging flag", "the upload no longer starts by checking that the drag is still on")
+	}
 	// the prompt claim: while promptPipe is set the input pump hands every key to the stop question. Whoever sets it
 	// (compare-and-swap from nil) must, on the won edge, reach the worker that clears it — or clear it itself — before
 	// returning; and that worker clears it on every exit. Otherwise typed input is eaten for the rest of the session.
@@ -529,7 +583,7 @@ func c05R5(c *Ctx) {
 	out := det.Params[1]
 	eachInstr(det, func(in ssa.Instruction) {
 		r, ok := in.(*ssa.Return)
-		if !ok || len(r.Results) != 2 || !isNilConst(r.Results[1]) {
+		if !ok || len(r.Results) != 2 || !isNilConst(retVal(r, 1)) {
 			return
 		}
 		good := true
